@@ -141,6 +141,68 @@ func TestVerifC03FragFeedSeq(t *testing.T) {
 			k.Sample(map[string]any{"sequence": id, "steps": steps, "emitted_from_hostile": emitted, "canary_fragments": nf})
 		}
 	}
+
+	// Aggregate workload: COMPLETE, well-formed fragment sets whose payloads add up to totals around
+	// the 4096-byte UDP buffer, 8 KiB, 64 KiB, 255 x 1200/1400 bytes (every datagram is small and
+	// valid). One Defragger receives several sets in a row (what a session sees), then the canary.
+	sets := vfC03AggregateSets(k.Rand("aggregate"), k.N(25, 1500))
+	var d *Defragger
+	for i, set := range sets {
+		id := fmt.Sprintf("agg-%d", i)
+		if r.SkipSeq(id) {
+			continue
+		}
+		if d == nil || i%4 == 0 || r.k.ReplayCase() != "" {
+			d = &Defragger{}
+			r.NewObject("Defragger, aggregate sets from " + id)
+		}
+		parts, whole := vfC03SetPayloads(set, uint32(i))
+		pid := uint16(1 + i%0x7000)
+		var out *protocol.UDPMessage
+		emissions := 0
+		panicked := false
+		for _, f := range set.Order {
+			wire := vfC03Wire(3, pid, uint8(f), uint8(len(set.Sizes)), "agg.verif:53", parts[f])
+			panicked = r.DoObj(entry, r.SeqID(id), wire, func(b []byte) {
+				if m := vfC03FeedWire(d, b); m != nil {
+					emissions++
+					out = m
+				}
+			})
+			if panicked {
+				break
+			}
+		}
+		if panicked {
+			break
+		}
+		k.Count("ev_aggregate_sets", 1)
+		k.Count("aggregate_bytes", int64(set.Total))
+		if out != nil {
+			k.Count("ev_aggregate_emitted", 1)
+			// a complete set is well-formed input: whatever is emitted for it must be the message itself
+			if emissions != 1 || !bytes.Equal(out.Data, whole) {
+				r.ServiceStopped(entry, r.SeqID(id), map[string]any{"set": set.Label, "total": set.Total},
+					"complete fragment set %s: %d emissions, emitted %d bytes that differ from the %d-byte message", set.Label, emissions, len(out.Data), len(whole))
+			}
+		}
+		if i%4 == 3 || i == len(sets)-1 {
+			cpid := uint16(0x7800 + i%0x700)
+			r.Canary(entry, r.SeqID(id), map[string]any{"after": set.Label}, func() error {
+				if got := vfC03FeedWire(d, vfExact(vfC03Wire(77, cpid, 1, 2, "canary.verif:9", []byte("-world")))); got != nil {
+					return fmt.Errorf("emitted after 1 of 2 fragments")
+				}
+				got := vfC03FeedWire(d, vfExact(vfC03Wire(77, cpid, 0, 2, "canary.verif:9", []byte("hello"))))
+				if got == nil || string(got.Data) != "hello-world" {
+					return fmt.Errorf("2-fragment message after %s not reassembled: %v", set.Label, got)
+				}
+				return nil
+			})
+		}
+		if i == 12 {
+			k.Sample(map[string]any{"aggregate_set": set.Label, "fragments": len(set.Sizes), "total_bytes": set.Total, "arrivals": len(set.Order)})
+		}
+	}
 }
 
 type vfC03SplitCase struct {
